@@ -189,11 +189,12 @@ class World:
         return out
 
     def _automatic(self, **kw):
-        if not self.submit_ok:
+        if not self.submit_ok and not self.fail_late:
             return tools_submit.State.FAILED
         if self.use_spawn:
             kw['spawn'](['python', '-m', 'dawgie.tools.compliant'])
-        return tools_submit.State.SUCCESS
+        # fail_late: a git step after the compliance run was spawned fails
+        return tools_submit.State.SUCCESS if self.submit_ok else tools_submit.State.FAILED
 
     def _build(self, *a):
         self.calls.append('schedule.build')
@@ -236,6 +237,7 @@ class World:
         self.api_submitter = api_submit.Defer()
         del self.spawned[:]
         self.use_spawn = False
+        self.fail_late = False
         self.set_level(0)
 
     def _changed(self, *a, **k):
@@ -279,9 +281,10 @@ class World:
             self.reactor.fire_oldest()
         return r, req
 
-    def submit_api(self, priority, ok=True):
+    def submit_api(self, priority, ok=True, fail_late=False):
         """POST /api/rev/submit: steps 1-2 run now; step 3 waits for verify()"""
         self.submit_ok = ok
+        self.fail_late = fail_late
         self.use_spawn = True
         req = Request()
         self.api_submitter.request = req
@@ -291,6 +294,8 @@ class World:
                 self.reactor.fire_oldest()
         finally:
             self.use_spawn = False
+            self.fail_late = False
+            self.submit_ok = True
         return r, req
 
     def verify(self, ok):
